@@ -112,6 +112,62 @@ SRC_KW = {"Cuboid": ({"dimension": (1, 2, 3)}, {"polarization": (1, 2, 3)}), "Cy
           "Polyline": ({"vertices": TET[:2]}, {"current": 1}), "Dipole": ({}, {"moment": (1, 2, 3)}), "CustomSource": ({}, {})}
 
 
+COLL_ATTRS = ("children", "sources", "sensors", "collections")
+JUNK = ["one-junk-entry", "junk-last", "junk-first", "bare-int", "none", "string", "self", "ancestor", "duplicate", "nested-junk", "object", "dict",
+        "steal-then-junk", "sub-then-self", "valid", "valid-empty", "valid-steal", "wrong-type-only"]
+
+
+def collset_world(magpy):
+    """a populated forest: p ⊃ c ⊃ {s1, s2, x1, x2, sub ⊃ {s3, x3}}, another collection o ⊃ {s4, x4}, loose objects"""
+    mk_s = lambda: magpy.magnet.Cuboid(dimension=(1, 1, 1), polarization=(0, 0, 1))
+    w = {"s1": mk_s(), "s2": magpy.misc.Dipole(moment=(1, 2, 3)), "s3": mk_s(), "s4": mk_s(), "s5": mk_s(),
+         "x1": magpy.Sensor(), "x2": magpy.Sensor(), "x3": magpy.Sensor(), "x4": magpy.Sensor(), "x5": magpy.Sensor()}
+    w["sub"] = magpy.Collection(w["s3"], w["x3"])
+    w["c"] = magpy.Collection(w["s1"], w["x1"], w["sub"], w["s2"], w["x2"])
+    w["p"] = magpy.Collection(w["c"])
+    w["o"] = magpy.Collection(w["s4"], w["x4"])
+    w["k"] = magpy.Collection()
+    return w
+
+
+def collset_state(w):
+    """children ids, typed views and parents of everything in the world"""
+    st = {}
+    for name, o in w.items():
+        st[name] = (id(o._parent),)  # pylint: disable=protected-access
+        if hasattr(o, "_children"):
+            st[name] += tuple(tuple(id(x) for x in getattr(o, a_)) for a_ in ("_children", "_sources", "_sensors", "_collections"))
+            st[name] += (tuple(id(x) for x in o.children_all),)
+    return st
+
+
+def collset_value(junk, attr, w, rng):
+    good = {"children": [w["s5"], w["x5"], w["k"]], "sources": [w["s5"]], "sensors": [w["x5"]], "collections": [w["k"]]}[attr]
+    junk_obj = rng.choice([1, "abc", None, 2.5, object(), {"a": 1}, (1, 2, 3)])
+    return {"one-junk-entry": [junk_obj], "junk-last": good + [junk_obj], "junk-first": [junk_obj] + good, "bare-int": 5, "none": None, "string": "abc",
+            "self": good + [w["c"]], "ancestor": good + [w["p"]], "duplicate": good + good[:1], "nested-junk": [good, [good[0], 7]], "object": object(),
+            "dict": {"a": w["s5"]}, "steal-then-junk": [w["s4"], w["x4"], w["o"], junk_obj], "sub-then-self": [w["sub"], w["c"]], "valid": good,
+            "valid-empty": [], "valid-steal": [w["s4"], w["x4"]] if attr in ("children",) else good,
+            "wrong-type-only": {"children": good, "sources": [w["x5"]], "sensors": [w["s5"]], "collections": [w["s5"], w["x5"]]}[attr]}[junk]
+
+
+def collset_real(case, rng, magpy):
+    """assign to one of the four collection setters of the populated collection `c`; a refused assignment must leave the whole world as it was"""
+    _, attr, junk = case
+    w = collset_world(magpy)
+    before = collset_state(w)
+    val = collset_value(junk, attr, w, rng)
+    try:
+        setattr(w["c"], attr, val)
+    except Exception as e:  # pylint: disable=broad-except
+        k = kind(e)
+        same = collset_state(w) == before
+        # the KIND of the error is not this row's subject (`c.children = 5` raises a foreign TypeError from `self.add(*5)`: reported, listed in the
+        # oracle's observed-not-recorded entries); the row is about the state after ANY refusal
+        return ("all-or-nothing" if same else "may-change (state differs after the refused assignment)") + (" " + k if k != "err bad" else "")
+    return "all-or-nothing"                    # accepted
+
+
 def kind(e):
     from magpylib._src.exceptions import MagpylibBadUserInput, MagpylibMissingInput
 
@@ -203,6 +259,8 @@ def run_real(case, rng, world):
             except Exception as e:  # pylint: disable=broad-except
                 return "late-" + kind(e)
             return "ok"
+        if cmd == "collset":
+            return collset_real(case, rng, magpy)
         if cmd == "missing":
             cls, dim_none, exc_none = case[1:4]
             ctor = getattr(magpy.magnet, cls, None) or getattr(magpy.current, cls, None) or getattr(magpy.misc, cls)
@@ -237,6 +295,8 @@ def line(case):
         return f"valid stylesetter {style_enc(case[1])}"
     if cmd == "stylector":
         return f"valid stylector {style_enc(case[1])} {int(case[2])} {int(case[3])} {case[4] or '-'}"
+    if cmd == "collset":
+        return f"valid setterform BaseCollection {case[1]}"
     if cmd == "missing":
         return f"valid missing {case[1]} {int(case[2])} {int(case[3])}"
     raise ValueError(cmd)
@@ -307,6 +367,8 @@ def run_stream(ctx, n):
     # check_dimensions / check_excitations
     cases += [("missing", c, dn, en) for c in SRC_KW for dn in (False, True) for en in (False, True)
               if not (c == "CustomSource" and (dn or en)) and not (c == "Dipole" and dn)]
+    # junk assigned to the four collection setters of a populated collection: the whole forest before / after
+    cases += [("collset", at, j) for at in COLL_ATTRS for j in JUNK]
     n_fixed = len(cases)
     for _ in range(n):
         r = rng.random()
@@ -328,6 +390,8 @@ def run_stream(ctx, n):
             nm = rng.random() < 0.8
             d = rng.choice([None, None, "AttributeError", "AssertionError", "ValueError"]) if (has_kw and nm and not (a[0] == "D" and a[1])) else None
             cases.append(("stylector", a, has_kw, nm, d) if rng.random() < 0.6 else ("stylesetter", a))
+        elif r < 0.95:
+            cases.append(("collset", rng.choice(COLL_ATTRS), rng.choice(JUNK)))
         else:
             c = rng.choice(sorted(SRC_KW))
             dn, en = rng.random() < 0.4, rng.random() < 0.4
@@ -350,6 +414,13 @@ def run_stream(ctx, n):
             with contextlib.redirect_stdout(devnull):
                 real = run_real(c, rng, world)
             model = " ".join(out[i].split())
+            if c[0] == "collset":
+                stats["collset_refused"] = stats.get("collset_refused", 0) + (1 if c[2] not in ("valid", "valid-empty", "valid-steal", "wrong-type-only") else 0)
+                model = model.split()[0]
+                if real.startswith("all-or-nothing err foreign"):
+                    fk = stats.setdefault("collset_foreign_refusals", {})
+                    fk[f"{c[1]}={c[2]}: {real.split()[-1]}"] = fk.get(f"{c[1]}={c[2]}: {real.split()[-1]}", 0) + 1
+                    real = "all-or-nothing"
             pc = stats["per_command"].setdefault(c[0], {"ok": 0, "bad": 0, "missing": 0, "foreign": 0, "late": 0})
             pc["ok" if real.startswith("ok") else "bad" if real.startswith("err bad") else "missing" if real == "err missing" else "late" if real.startswith(("late", "err later")) else "foreign"] += 1
             seen.add((c[0], model, line(c)))
